@@ -6,6 +6,8 @@ Case line:
   renumber cfg=<trim><hash><fold> inputs=<l,..|-> latches=<state:next:init,..|-> gates=<out:in0:in1,..|->
            outputs=<l,..|-> bad=.. constraints=.. justice=<l,..;l,..|-> (empty group = `e`) fairness=..
   renumber deep=<chain|cycle> n=<N>      (implementation-only stack-depth case; see `deepObs`)
+  renumber cfg=.. ni=<N> nl=<N> ord=.. num=.. pol=.. gs=<gate segments> ln=.. outputs=.. ..   (scale case:
+           generator spec, see `expandSpec`; the observation is a digest of the full one)
 -/
 import Flussab.Model.Aig
 import Driver.Util
@@ -122,10 +124,173 @@ The expected observation is determined by the shape alone. -/
 def deepObs (shape : String) : String :=
   if shape == "chain" then "deep:ok" else "deep:err:FoundCycle"
 
+/-! ### Scale cases: the circuit is described by a generator spec
+
+The same expansion as `expand_spec` in `harness/src/eng_renumber.rs` (see the description of the
+segment syntax there).  The `k` gate segment only occurs in `big=1` cases, which never get here. -/
+
+namespace Rn
+
+/-- splitmix64, as `common.rs::Rng`. -/
+structure SRng where
+  s : UInt64
+
+def SRng.new (seed : Nat) : SRng :=
+  ⟨((UInt64.ofNat seed) * 0x9E3779B97F4A7C15) ^^^ 0xD1B54A32D192ED03⟩
+
+def SRng.next (r : SRng) : UInt64 × SRng :=
+  let s := r.s + 0x9E3779B97F4A7C15
+  let z := (s ^^^ (s >>> 30)) * 0xBF58476D1CE4E5B9
+  let z := (z ^^^ (z >>> 27)) * 0x94D049BB133111EB
+  (z ^^^ (z >>> 31), ⟨s⟩)
+
+def segList (s : String) : List String :=
+  if s == "-" || s.isEmpty then [] else s.splitOn "+"
+
+/-- Kind letter and `.`-separated parameters of a segment. -/
+def segParts (s : String) : Char × List String :=
+  match s.toList with
+  | c :: rest => (c, (String.ofList rest).splitOn ".")
+  | [] => (' ', [])
+
+def pNat (s : String) : Nat := s.toNat?.getD 0
+def pInt (s : String) : Int := s.toInt?.getD 0
+
+def specGateCount (gs : String) : Nat :=
+  (segList gs).foldl (fun n seg =>
+    match segParts seg with
+    | ('x', _) => n + 1
+    | ('c', c :: _) => n + pNat c
+    | ('g', c :: _) => n + pNat c
+    | ('p', [_, n1, _, n2]) => n + pNat n1 * pNat n2
+    | ('k', c :: _) => n + 2 * pNat c
+    | _ => n) 0
+
+def pickSignal (r : UInt64) (s win : Nat) : Nat :=
+  if s == 0 || (r >>> 60) == 0 then (r &&& 1).toNat else
+  let w := if win == 0 || win > s then s else win
+  let v := s - ((r >>> 1).toNat % w)
+  2 * v + (r &&& 1).toNat
+
+/-- State of the gate expansion: number of allocating gates, gates `(out, in0, in1)` so far. -/
+abbrev GAcc := Nat × Array (Nat × Nat × Nat)
+
+def gAlloc (base : Nat) (acc : GAcc) (a b : Nat) : GAcc :=
+  (acc.1 + 1, acc.2.push (2 * (base + 1 + acc.1), a, b))
+
+def expandGateSeg (base : Nat) (acc : GAcc) (seg : String) : GAcc :=
+  match segParts seg with
+  | ('x', [a, b]) => gAlloc base acc (pNat a) (pNat b)
+  | ('c', [c, a0, da, b0, db]) =>
+    let (a0, da, b0, db) := (pInt a0, pInt da, pInt b0, pInt db)
+    (List.range (pNat c)).foldl (fun acc (i : Nat) =>
+      gAlloc base acc (a0 + Int.ofNat i * da).toNat (b0 + Int.ofNat i * db).toNat) acc
+  | ('p', [lo1, n1, lo2, n2]) =>
+    let (lo1, n1, lo2, n2) := (pNat lo1, pNat n1, pNat lo2, pNat n2)
+    (List.range n1).foldl (fun acc i =>
+      (List.range n2).foldl (fun acc j => gAlloc base acc (lo1 + i) (lo2 + j)) acc) acc
+  | ('g', [c, seed, win]) =>
+    let win := pNat win
+    ((List.range (pNat c)).foldl (fun (st : GAcc × SRng) _ =>
+      let (acc, rng) := st
+      let s := base + acc.1
+      let (r1, rng) := rng.next
+      let (r2, rng) := rng.next
+      (gAlloc base acc (pickSignal r1 s win) (pickSignal r2 s win), rng)) (acc, SRng.new (pNat seed))).1
+  | ('o', [o, a, b]) => (acc.1, acc.2.push (pNat o, pNat a, pNat b))
+  | _ => acc
+
+def expandGates (gs : String) (base : Nat) : Array (Nat × Nat × Nat) :=
+  ((segList gs).foldl (expandGateSeg base) (0, #[])).2
+
+def expandLits (s : String) (total : Nat) : List Nat :=
+  ((segList s).foldl (fun (out : Array Nat) seg =>
+    match segParts seg with
+    | ('c', [c, start, step]) =>
+      let (start, step) := (pInt start, pInt step)
+      (List.range (pNat c)).foldl (fun out (i : Nat) => out.push (start + Int.ofNat i * step).toNat) out
+    | ('g', [c, seed]) =>
+      ((List.range (pNat c)).foldl (fun (st : Array Nat × SRng) _ =>
+        let (r, rng) := st.2.next
+        (st.1.push (r.toNat % (2 * total + 2)), rng)) (out, SRng.new (pNat seed))).1
+    | _ => out.push (pNat seg)) #[]).toList
+
+def canonToOrig (total : Nat) (num : Char) (pol : Nat) (c : Nat) : Nat :=
+  let v := c / 2
+  if v == 0 then c else
+  let m :=
+    if num == 'r' && v ≤ total then total + 1 - v
+    else if num == 'h' then 3 * v + 1
+    else if num == 'b' then 2147483648 - total / 2 + v
+    else v
+  let odd := if pol > 0 && v % pol == 0 then 1 else 0
+  2 * m + ((c % 2) ^^^ odd)
+
+/-- `common.rs::shuffle` (Fisher-Yates from the top). -/
+def shuffleArr {α : Type} (seed : Nat) (v : Array α) : Array α :=
+  ((List.range (v.size - 1)).foldl (fun (st : Array α × SRng) k =>
+    let i := v.size - 1 - k
+    let (r, rng) := st.2.next
+    let j := r.toNat % (i + 1)
+    (st.1.swapIfInBounds i j, rng)) (v, SRng.new seed)).1
+
+def specInit (j : Nat) : Option Bool :=
+  if j % 3 == 0 then none else if j % 3 == 1 then some false else some true
+
+def expandSpec (fs : List (String × String)) : Config × Aig :=
+  let cfg := parseCfg (field fs "cfg")
+  let ni := fieldNat fs "ni"
+  let nl := fieldNat fs "nl"
+  let base := ni + nl
+  let gs := field fs "gs"
+  let total := base + specGateCount gs
+  let num := (field fs "num").toList.headD 'i'
+  let tr := canonToOrig total num (fieldNat fs "pol")
+  let gates0 := expandGates gs base
+  let ord := field fs "ord"
+  let gates := match ord.toList with
+    | 'r' :: _ => gates0.reverse
+    | 's' :: sd => shuffleArr (pNat (String.ofList sd)) gates0
+    | _ => gates0
+  let lits (k : String) : List Nat := (expandLits (field fs k) total).map tr
+  let next := (expandLits (field fs "ln") total).toArray
+  let j := field fs "justice"
+  (cfg, {
+    inputs := (List.range ni).map fun i => tr (2 * (i + 1)),
+    latches := (List.range nl).map fun k =>
+      { state := tr (2 * (ni + 1 + k)), next := tr (next.getD k 0), init := specInit k },
+    gates := gates.toList.map fun (o, a, b) => { out := tr o, in0 := tr a, in1 := tr b },
+    outputs := lits "outputs", bad := lits "bad", constraints := lits "constraints",
+    justice := if j == "-" || j.isEmpty then [] else
+      (j.splitOn ";").map fun g => if g == "e" then [] else (expandLits g total).map tr,
+    fairness := lits "fairness" })
+
+def fnvStr (s : String) : UInt64 :=
+  s.toUTF8.foldl (fun h b => (h ^^^ b.toUInt64) * 0x100000001b3) 0xcbf29ce484222325
+
+def hex16 (n : UInt64) : String :=
+  String.ofList ((List.range 16).reverse.map fun i => hexDigit ((n.toNat / 16 ^ i) % 16))
+
+def runScaleCase (fs : List (String × String)) : String × String :=
+  let (cfg, a) := expandSpec fs
+  let cfgTag := s!"scale=1 trim={b2s cfg.trim} hash={b2s cfg.hash} fold={b2s cfg.fold}"
+  match renumberAig cfg a with
+  | .ok (o, m) =>
+    let full := s!"ok {showOrdered o} map={showMap m}"
+    let merged := m.length - 1 - a.inputs.length - a.latches.length - o.gates.length
+    let what := if cfg.hash && cfg.fold then "merged" else if cfg.hash then "hashed" else "folded"
+    (s!"ok M={o.maxVarIndex} I={o.inputCount} G={o.gates.length} #{full.utf8ByteSize}:{hex16 (fnvStr full)}",
+     s!"{cfgTag} in={a.gates.length} gates={o.gates.length} {what}={merged} err=none")
+  | .error e => (showErr e, s!"{cfgTag} in={a.gates.length} gates=0 err={errKind e}")
+  | .outOfFuel => ("out-of-fuel", s!"{cfgTag} err=fuel")
+
+end Rn
+
 def runRenumberCase (line : String) : String × String :=
   let fs := fields line
   let deep := field fs "deep"
   if !deep.isEmpty then (deepObs deep, s!"deep={deep}") else
+  if !(field fs "gs").isEmpty then Rn.runScaleCase fs else
   let cfg := parseCfg (field fs "cfg")
   let a : Aig := {
     inputs := parseNats (field fs "inputs"), latches := parseLatches (field fs "latches"),
